@@ -156,6 +156,9 @@ def run_model(lines, preamble=()):
     """Feed request lines to the model driver; return one response line per request."""
     if not os.path.exists(MODEL_EXE):
         raise RuntimeError("model driver not built: " + MODEL_EXE)
+    lines = list(lines)
+    if not lines:
+        return []
     data = "\n".join(list(preamble) + list(lines)) + "\n"
     p = subprocess.run([MODEL_EXE], input=data.encode(), stdout=subprocess.PIPE,
                        stderr=subprocess.PIPE, timeout=3600)
